@@ -351,6 +351,8 @@ class Shadow:
         k = as_kind or d["kind"]
         if k not in REL:
             return
+        if d["kind"] == "sd" and not d["live"] and as_kind is None and not getattr(self, "final", False):
+            return        # SD file ids are slot numbers and are re-issued at once: a stale one may name a live file
         self.emit("%s %d" % (REL[k], s))
         if as_kind is not None and as_kind != d["kind"]:
             return
@@ -436,6 +438,7 @@ def fam_history(r, fam, perm_index=None):
             if sh.vstarted[f] > 0 and not sh.children(f, {"vg", "vs"}) and sh.slots[f]["live"]:
                 sh.vend(f)
     teardown(sh)
+    sh.final = True
     for h in hs:                        # double release + stale use
         if not sh.slots[h]["live"]:
             sh.release(h)
@@ -528,6 +531,11 @@ def rand_history(r, nops):
 
 def teardown(sh):
     """release everything the shadow believes live, children first"""
+    # handles whose issue was not plainly valid may exist all the same (e.g. a new element created by a write
+    # start): release them, and close their files once more (both fail harmlessly when there is nothing to release)
+    maybe = [s for s, d in sh.slots.items() if d.get("maybe") and d["kind"] in REL and d["kind"] not in ("file", "sd")]
+    for s in maybe:
+        sh.emit("%s %d" % (REL[sh.slots[s]["kind"]], s))
     for _ in range(6):
         for s in sorted(sh.slots, reverse=True):
             d = sh.slots[s]
@@ -536,6 +544,9 @@ def teardown(sh):
         for f in list(sh.vstarted):
             if sh.vstarted[f] > 0 and not sh.children(f, {"vg", "vs"}):
                 sh.vend(f)
+    for f in sorted(set(sh.slots[s]["parent"] for s in maybe)):
+        if f is not None and sh.slots[f]["kind"] == "file":
+            sh.emit("hclose %d" % f)
 
 
 def reinit_history(r):
@@ -550,6 +561,8 @@ def reinit_history(r):
     sh2.ops = sh.ops
     f = sh2.hopen(r.randrange(3), "w")
     for s in list(sh.slots):            # ids of the previous life: all stale now (or numerically re-issued to f)
+        if sh.slots[s]["kind"] in ("an", "ann"):
+            continue                    # AN id = file id: would be an AN call on f before ANstart (API misuse)
         if r.random() < 0.6:
             sh2.use(s)
     sh2.vstart(f)
@@ -600,8 +613,10 @@ ISSUE_KIND = {"hopen": "file", "hstart": "aid", "hbit": "bit", "vattach": "vg", 
 # calls that look the id up without checking its atom group first (hfile.c, hbitio.c, mfan.c, Vstart/Vend)
 UNTYPED = {"hclose": "file", "hfinq": "file", "vstart": "file", "vend": "file", "hstart": "file", "hbit": "file",
            "vattach": "file", "vsattach": "file", "grstart": "file", "anstart": "file", "hend": "aid", "hinq": "aid",
-           "hread": "aid", "hbitend": "bit", "hbitrd": "bit", "aninfo": "an", "anend": "an", "anselect": "an"}
+           "hread": "aid", "hbitend": "bit", "hbitrd": "bit", "aninfo": "an", "anend": "an", "anselect": "an",
+           "annlen": "ann", "anendacc": "ann"}
 ATOM_KINDS = {"file", "aid", "bit", "vg", "vs", "gr", "ri", "an", "ann"}
+GROUP_OF_KIND = {"file": 2, "aid": 1, "bit": 7, "vg": 3, "vs": 4, "gr": 5, "ri": 6, "an": 2, "ann": 8}
 
 
 def slot_kinds(hist, upto):
@@ -621,6 +636,13 @@ def foreign_untyped(hist, i):
     arg = t[2] if t[0] in ISSUE_KIND else t[1]
     have = slot_kinds(hist, i).get(arg)
     want = UNTYPED[t[0]]
+    if have == "lit":
+        # a forged number that carries the group bits of another atom group may equal a live id of that group
+        val = [int(l.split()[2]) for l in hist[:i] if l.split()[0] == "lit" and l.split()[1] == arg]
+        g = ((val[-1] % (1 << 32)) >> 28) if val else 15
+        if 0 <= g <= 8 and g != GROUP_OF_KIND[want]:       # group 0: the library's internal DD atoms (small integers)
+            return "foreign-kind-id-to-untyped-call:" + want
+        return None
     if have in ATOM_KINDS and have != want and not (have == "file" and want == "an") and not (have == "an" and want == "file"):
         return "foreign-kind-id-to-untyped-call:" + want
     return None
